@@ -338,9 +338,27 @@ func orchestrate(id, tier string) int {
 			// a race reported while replaying the witness makes the child exit with status 1
 			cmd.Env = append(cmd.Env, "GORACE=exitcode=1 halt_on_error=0")
 		}
-		out, err := cmd.CombinedOutput()
+		var outb strings.Builder
+		cmd.Stdout, cmd.Stderr = &outb, &outb
+		err := cmd.Start()
+		timedOut := false
+		if err == nil {
+			done := make(chan error, 1)
+			go func() { done <- cmd.Wait() }()
+			select {
+			case err = <-done:
+			case <-time.After(5 * time.Minute):
+				cmd.Process.Kill()
+				err, timedOut = <-done, true
+			}
+		}
+		out := []byte(outb.String())
 		violates := false
-		if ee, ok := err.(*exec.ExitError); ok && ee.ExitCode() == 1 {
+		if timedOut && id == "C08" {
+			// for the totality property a witness that does not return is the violation
+			violates = true
+			out = append(out, []byte("  witness replay did not return within 5 minutes\n")...)
+		} else if ee, ok := err.(*exec.ExitError); ok && ee.ExitCode() == 1 && !timedOut {
 			violates = true
 		} else if err != nil {
 			fmt.Printf("INCONCLUSIVE property=%s reason=witness %s could not be replayed: %v\n%s", id, fd.Witness, err, out)
